@@ -1,6 +1,6 @@
 (* C02 — a response reaches exactly the request it answers; every request completes once.
    Only statements here; every proof is [exact <lemma of Proofs/C02.v>]. *)
-From Verif Require Import Lib.Py Lib.Tactics Gen.tokenmanager_next_token Model.C02 Proofs.C02 Proofs.C02Once Proofs.C02Origin Proofs.C02Inv.
+From Verif Require Import Lib.Py Lib.Tactics Gen.tokenmanager_next_token Model.C02 Proofs.C02 Proofs.C02Once Proofs.C02Origin Proofs.C02Inv Proofs.C02Tok.
 Open Scope Z_scope.
 
 (* ---- tokens (over next_token as translated from tokenmanager.py on this run) *)
@@ -170,6 +170,14 @@ Theorem C02_tokens_of_calls_distinct : forall t i j, 0 <= tm_token t < 2 ^ 64 ->
   tokbytes (tm_token (next_token_n i t)) <> tokbytes (tm_token (next_token_n j t)).
 Proof. exact tokens_of_calls_distinct_lemma. Qed.
 Print Assumptions C02_tokens_of_calls_distinct.
+
+(* ---- table level: in every state reachable with at most 2^64 events, the TOKENS of all outstanding requests are
+   pairwise different (a fortiori their (token, remote) keys towards one endpoint): a new request never reuses the token
+   of, nor overwrites the entry of, a request that is still outstanding. Over next_token as translated on this run. *)
+Theorem C02_outstanding_tokens_distinct : forall t m a es og, 0 <= t < 2 ^ 64 -> Z.of_nat (length es) <= 2 ^ 64 ->
+  outgoing (fst (run (init t m a) es)) = Some og -> NoDup (map (fun e => fst (fst e)) og).
+Proof. exact outstanding_tokens_distinct_lemma. Qed.
+Print Assumptions C02_outstanding_tokens_distinct.
 
 (* ---- non-vacuity: the invariant and the hypotheses above are satisfied by concrete busy states *)
 Example C02_nonvacuous_state :
